@@ -1174,3 +1174,89 @@ func inURLHostname(fr *frame, args []value) value {
 	}
 	panic(engineErr("Hostname: unexpected host value"))
 }
+
+// ---------------------------------------------------------------------
+// streaming SHA-256 (sha256.New / Write / Sum / Reset) and sync.Pool: the hash state is the list of
+// byte handles written so far; its digest is the same uninterpreted function of that list as
+// sha256.Sum256 (a single write of b gives exactly Sum256(b)).  sync.Pool.Get returns a pooled
+// item or a fresh one - which, is a decision of the path.
+
+type shaState struct{ writes []string }
+
+func init() {
+	intrinsics["crypto/sha256.New"] = func(fr *frame, args []value) value {
+		dt := fr.i.ld.namedType("crypto/sha256", "digest")
+		cell := value(nativeBox{&shaState{}})
+		return iface{t: types.NewPointer(dt), v: &cell}
+	}
+	st := func(v value) *shaState {
+		p, ok := v.(*value)
+		if !ok || p == nil {
+			panic(runtimePanic{"runtime error: invalid memory address or nil pointer dereference (hash)"})
+		}
+		return (*p).(nativeBox).v.(*shaState)
+	}
+	intrinsics["(*crypto/sha256.digest).Write"] = func(fr *frame, args []value) value {
+		s := st(args[0])
+		bl := asBlob(args[1])
+		if bl == nil {
+			if l, _ := args[1].([]value); len(l) == 0 {
+				return tuple{0, iface{}}
+			}
+			panic(engineErr("hash.Write of bytes that are not a handle"))
+		}
+		s.writes = append(s.writes, bl.render)
+		return tuple{1, iface{}}
+	}
+	intrinsics["(*crypto/sha256.digest).Reset"] = func(fr *frame, args []value) value {
+		st(args[0]).writes = nil
+		return nil
+	}
+	intrinsics["(*crypto/sha256.digest).Sum"] = func(fr *frame, args []value) value {
+		s := st(args[0])
+		a := make([]value, 32)
+		a[0] = digestMark{strings.Join(s.writes, " ++ ")}
+		for i := 1; i < 32; i++ {
+			a[i] = uint8(0)
+		}
+		if pre, _ := args[1].([]value); len(pre) > 0 {
+			panic(engineErr("hash.Sum appended to a non-empty slice"))
+		}
+		return a
+	}
+	intrinsics["(*sync.Pool).Get"] = func(fr *frame, args []value) value {
+		p := derefPtr(args[0], "(*sync.Pool).Get")
+		pc := fr.i.pc
+		if pc.pools == nil {
+			pc.pools = map[*value][]value{}
+		}
+		if items := pc.pools[p]; len(items) > 0 {
+			key := pc.tapeKey("choose:pool.reuse")
+			c := pc.decideN(2, func(int) string { return "" }, false)
+			pc.tape[key] = c
+			if c == 0 {
+				it := items[len(items)-1]
+				pc.pools[p] = items[:len(items)-1]
+				return it
+			}
+		}
+		stt := fr.i.ld.namedType("sync", "Pool").Underlying().(*types.Struct)
+		nf := (*p).(structure)[fr.i.fieldIndex(stt, "New")]
+		if nf == nil {
+			return iface{}
+		}
+		if c, ok := nf.(*closure); ok && c == nil {
+			return iface{}
+		}
+		return call(fr.i, fr, token.NoPos, nf, nil)
+	}
+	intrinsics["(*sync.Pool).Put"] = func(fr *frame, args []value) value {
+		p := derefPtr(args[0], "(*sync.Pool).Put")
+		pc := fr.i.pc
+		if pc.pools == nil {
+			pc.pools = map[*value][]value{}
+		}
+		pc.pools[p] = append(pc.pools[p], args[1])
+		return nil
+	}
+}
